@@ -137,13 +137,31 @@ def run(ctx):
                          special={"e": numeric.orb_energy_special})
             pr.p1, pr.p2, pr.tg = r["terms"], r0["terms"], r0["targets"]
             pairs.append(pr)
-            meta.append((name, label, r["text"], r0["text"]))
+            meta.append((name, label, r["text"], r0["text"],
+                         collision(r["terms"], r0["targets"])
+                         if got.get("pre_existing", {}).get(name) else None))
             ctx.case(key=(name, label), nontrivial=True,
                      sample={"request": name, "run": label,
                              "text": r["text"][:160]},
                      kind=f"{name}")
     EQ.run_pairs(ctx, "hist", pairs, shard=4)
-    for pr, (name, label, text, text0) in zip(pairs, meta):
+    for pr, (name, label, text, text0, coll) in zip(pairs, meta):
+        if coll and (not pr.ok or text != text0):
+            # explicit numbered target name that was handed out as generic
+            # (contracted) index of a cached expression before the request:
+            # listed finding, see findings/C19_numbered_target_name.md
+            ctx.obligation(f"value of {name} independent of {label}", False,
+                           coll)
+            ctx.violation(
+                "C19:numbered-target-name-used-before-as-generic-index",
+                "a request with an explicit numbered target name that the "
+                "registry had handed out before (as contracted index of a "
+                "cached expression) returns a term in which the target "
+                "index also occurs as contracted index",
+                {"request": name, "run": label, "collision": coll,
+                 "difference": pr.diff, "text": text[:600],
+                 "reference_text": text0[:600]}, pr.diff is not None)
+            continue
         if not ctx.obligation(f"value of {name} independent of {label}",
                               bool(pr.ok), pr.err):
             ctx.violation(
@@ -164,6 +182,23 @@ def run(ctx):
                 "different history / hash seed",
                 {"request": name, "run": label, "text": text[:1500],
                  "reference_text": text0[:1500]}, True)
+
+
+def collision(terms, targets):
+    """a term in which a target index occurs more than once outside the
+    orbital-energy fraction, or None"""
+    tg = set(targets)
+    for c, facs in terms:
+        cnt = {}
+        for a, inv in facs:
+            if a[0] != "T" or a[2] == "e":
+                continue
+            for x in adcio.atom_indices(a):
+                if x in tg:
+                    cnt[x] = cnt.get(x, 0) + 1
+        if any(n > 1 for n in cnt.values()):
+            return repr((c, facs))[:400]
+    return None
 
 
 def replay(ctx, rep):
